@@ -36,7 +36,10 @@ def instances(tier, rng):
             [(u, NODE_CLASSES_CYC) for u in C.spread(cyc, 10 if quick else 60) + C.spread(cyc4, 25 if quick else 300)]
     single = {"nodes": ["a"], "edges": [], "ew": [], "nw": [3], "proutes": [["a"]], "pweights": [3]}
     out = []
-    for u, classes in items:
+    DOTTED = ["1", "1.5", "x.0", "x.0.1"]
+    for j, (u, classes) in enumerate(items):
+        if j % 4 == 1:
+            u = C.rename_scheme(u, DOTTED[:len(u["nodes"])])      # dotted node names must survive expansion and condensation
         for cls in classes:
             feats = [{}]
             extra = []
